@@ -349,7 +349,7 @@ theorem eval_reroot (cfg : Cfg) (π' : Path) : ∀ (fuel : Nat) (p : SProg) (ρ 
         exact ⟨t, by simp [eval, he], hrel⟩
     | param n shape init =>
       simp only [eval] at h
-      cases hp : scopeParam (π' ++ ρ) n shape init l.res s with
+      cases hp : scopeParam (π' ++ ρ) n (resolveDims shape) init l.res s with
       | mk res s2 =>
         rw [hp] at h
         cases res with
@@ -391,13 +391,13 @@ theorem eval_reroot (cfg : Cfg) (π' : Path) : ∀ (fuel : Nat) (p : SProg) (ρ 
         simp only [hg, Prod.mk.injEq, Except.ok.injEq] at h
         obtain ⟨rfl, rfl⟩ := h
         exact ⟨t, by simp [eval, hrel.getVar_eq, hg], hrel⟩
-    | put col n e =>
+    | put col rel n e =>
       simp only [eval] at h
       cases he : evalE x l.env e with
       | error err => simp [he] at h
       | ok v =>
         simp only [he] at h
-        cases hp : putVar (π' ++ ρ) col n (.tensor [] [v]) s with
+        cases hp : putVar (π' ++ ρ ++ rel) col n (.tensor [] [v]) s with
         | mk res s2 =>
           rw [hp] at h
           cases res with
@@ -405,6 +405,7 @@ theorem eval_reroot (cfg : Cfg) (π' : Path) : ∀ (fuel : Nat) (p : SProg) (ρ 
           | ok u =>
             simp only [Prod.mk.injEq, Except.ok.injEq] at h
             obtain ⟨rfl, rfl⟩ := h
+            rw [List.append_assoc] at hp
             obtain ⟨t1, e1, hr1⟩ := putVar_reroot hrel hp
             exact ⟨t1, by simp [eval, he, e1], hr1⟩
     | sow col n e =>
@@ -453,7 +454,7 @@ theorem eval_reroot (cfg : Cfg) (π' : Path) : ∀ (fuel : Nat) (p : SProg) (ρ 
           simp only [hr, Prod.mk.injEq, Except.ok.injEq] at h
           obtain ⟨rfl, rfl⟩ := h
           exact ⟨t, by simp [eval, hn, hr], hrel⟩
-    | call slot a =>
+    | call slot a w =>
       simp only [eval] at h
       cases hk : l.kids[slot]? with
       | none => simp [hk] at h
@@ -463,7 +464,7 @@ theorem eval_reroot (cfg : Cfg) (π' : Path) : ∀ (fuel : Nat) (p : SProg) (ρ 
         | error err => simp [he] at h
         | ok av =>
           simp only [he] at h
-          cases hb : eval cfg fuel k.body (π' ++ ρ ++ [k.name]) av {} s with
+          cases hb : eval cfg fuel (bindArg w k.body) (π' ++ ρ ++ [k.name]) av {} s with
           | mk res s2 =>
             rw [hb] at h
             cases res with
@@ -471,7 +472,7 @@ theorem eval_reroot (cfg : Cfg) (π' : Path) : ∀ (fuel : Nat) (p : SProg) (ρ 
             | ok lk =>
               simp only at h
               rw [List.append_assoc] at hb
-              obtain ⟨t2, e1, hr2⟩ := ih k.body (ρ ++ [k.name]) av {} lk s t s2 hrel hb
+              obtain ⟨t2, e1, hr2⟩ := ih (bindArg w k.body) (ρ ++ [k.name]) av {} lk s t s2 hrel hb
               cases hf : finishCall cfg (π' ++ ρ ++ [k.name]) lk s2 with
               | mk res2 s3 =>
                 rw [hf] at h
